@@ -229,6 +229,7 @@ def sym_mkPredefinedCrcFun(crc_name):
 # --------------------------------------------------------------------------- enum lookup
 _real_enum_call = _enum.EnumType.__call__
 _members_cache = {}
+ENUM_FAITHFUL = False    # True: Enum(symbolic) forks over the members and returns the real member object
 
 
 def _enum_call(cls, value, *a, **k):
@@ -238,6 +239,14 @@ def _enum_call(cls, value, *a, **k):
         members = _members_cache.get(cls)
         if members is None:
             members = _members_cache[cls] = sorted(set(int(m.value) for m in cls if _real_isinstance(m.value, int)))
+        if ENUM_FAITHFUL:
+            for m in members:
+                r = (value == m)
+                if r is False:
+                    continue
+                if r is True or bool(r):
+                    return _real_enum_call(cls, m)
+            raise ValueError("%r is not a valid %s" % (value, cls.__name__))
         if value.hi - value.lo < 512 and all(v in members for v in range(value.lo, value.hi + 1)):
             return value
         cond = None
